@@ -18,7 +18,7 @@
 //
 //	PwmRead/RpmRead  ok        print the register in one of several spellings ParseFloat truncates to it
 //	                 perm      print the (valid) register, then exit 1        -> output discarded, error
-//	                 other:-1  no output (exit 0) / newlines only / exit 3    -> error
+//	                 other:-1  no output (exit 0) / newlines only / exit 3 / script without exec bits (cannot be started) -> error
 //	                 other:0   unparsable text (exit 0)                       -> error
 //	PwmWrite         applied   register := Resp(v), exit 0
 //	                 refused   exit 1 (2 every other time), register unchanged
@@ -154,7 +154,7 @@ func cmdReadModeTok(m verifhook.ReadMode, n int) string {
 	case verifhook.ReadErrPerm:
 		return "fail"
 	case verifhook.ReadErrOther, verifhook.ReadEmpty:
-		return []string{"empty", "blank", "exit3"}[n%3]
+		return []string{"empty", "blank", "exit3", "noexec"}[n%4]
 	case verifhook.ReadGarbage:
 		return "garbage"
 	}
@@ -190,6 +190,14 @@ func (w *world) cmdPush() {
 		shQuote(cmdOkFormats[n%len(cmdOkFormats)]), shQuote(cmdOkFormats[(n/2)%len(cmdOkFormats)]),
 		q, shQuote(table), shQuote(cmdGarbageShapes[n%len(cmdGarbageShapes)]))
 	cmdMustWrite(c.dir+"/ctl", ctl, 0o644)
+	// "noexec": the script passes the permission check (root-owned, not writable by group/others) but cannot be started
+	for _, sc := range [][2]string{{"getpwm.sh", cmdReadModeTok(d.PwmRead, n)}, {"getrpm.sh", cmdReadModeTok(d.RpmRead, n+1)}} {
+		mode := os.FileMode(0o755)
+		if sc[1] == "noexec" {
+			mode = 0o644
+		}
+		_ = os.Chmod(c.dir+"/"+sc[0], mode)
+	}
 	cmdMustWrite(c.dir+"/pwm", strconv.Itoa(d.Pwm)+"\n", 0o644)
 	cmdMustWrite(c.dir+"/rpm", strconv.Itoa(d.Rpm)+"\n", 0o644)
 }
